@@ -10,7 +10,6 @@ pub mod ctx;
 pub mod fuzz;
 pub mod gen;
 pub mod monitor;
-#[cfg(feature = "full")]
 pub mod observe;
 pub mod props;
 pub mod reference;
